@@ -219,6 +219,38 @@ func checkC19(c *hx.Ctx) {
 				c.Violation("C19 "+why, replay)
 				return false
 			}
+			// the same resolved state transformed again (same model object): still a faithful projection, and the model's
+			// internal document is left as it was
+			if rr.Chance(1, 3) {
+				rm := mkRM(h, rr)
+				before := string(ref.MustJCS(roundTrip(rm.Doc)))
+				for pass := 0; pass < 3; pass++ {
+					c.Eval()
+					again, err := tr.TransformDocument(rm, h.info)
+					if err != nil {
+						c.Violation("C19 repeated transformation of the same resolution model failed: "+err.Error(), replay)
+						return false
+					}
+					exp := h
+					exp.nPub, exp.nUnpub = 0, 0
+					if incPub {
+						exp.nPub = len(rm.PublishedOperations)
+					}
+					if incUnpub {
+						exp.nUnpub = len(rm.UnpublishedOperations)
+					}
+					if why := compareProjection(again, h.internal, h.did, o, h.mi, exp.nPub, exp.nUnpub); why != "" && why[:5] != "skip:" {
+						replay["result"] = roundTrip(again)
+						c.Violation(fmt.Sprintf("C19 transformation number %d of the same resolution model: %s", pass+1, why), replay)
+						return false
+					}
+				}
+				if after := string(ref.MustJCS(roundTrip(rm.Doc))); after != before {
+					c.Violation("C19 TransformDocument modified the internal document of the resolution model\n   before: "+trunc600(before)+"\n   after:  "+trunc600(after), replay)
+					return false
+				}
+				c.Count("same_model_transformed_repeatedly")
+			}
 			mu.Lock()
 			all = append(all, h)
 			mu.Unlock()
@@ -334,4 +366,5 @@ func checkC19(c *hx.Ctx) {
 	c.Floor("material:jwk", 100)
 	c.Floor("rechecked_after_later_calls", 1000)
 	c.Floor("resolved_through_handler", 50)
+	c.Floor("same_model_transformed_repeatedly", 100)
 }
